@@ -46,6 +46,8 @@ type SigSpec struct {
 	Nil    bool   `json:"nil,omitempty"`     // nil signature pointer
 	CopyOf int    `json:"copy_of,omitempty"` // 1+position in the same map whose signature bytes are reused
 	Raw    string `json:"raw,omitempty"`     // literal 64 bytes (hex) instead of a produced signature
+	DS     string `json:"ds,omitempty"`      // decimal: added to the response s (mod l)
+	DR     string `json:"dr,omitempty"`      // decimal d: R replaced by R + d*B, s re-made for the new challenge
 }
 
 type InputSpec struct {
@@ -84,12 +86,18 @@ type Case struct {
 	// verify / batch: entries signed by the harness with a known nonce
 	Msg     string     `json:"msg,omitempty"`
 	Entries []SchEntry `json:"entries,omitempty"`
+	Zs      []string   `json:"zs,omitempty"` // cancellation families: a coefficient pattern for which the batch sum cancels
 }
 
 type SchEntry struct {
 	Priv  string `json:"priv"`  // a
 	Nonce string `json:"nonce"` // r (scalar, hex little endian as crypto.Key)
 	Mode  string `json:"mode"`  // honest | s+1 | s+l | otherR | otherKey | otherMsg | repo | badR
+	// linear-cancellation families (mode honest): DS is added to the response s (mod l);
+	// DR is added to the nonce behind R, the response staying the one of the original nonce
+	// under the NEW challenge.  Either makes the entry individually invalid by a known amount.
+	DS string `json:"ds,omitempty"`
+	DR string `json:"dr,omitempty"`
 }
 
 // ---- helpers --------------------------------------------------------------------
@@ -293,6 +301,12 @@ func makeSigs(cs Case, b *built, h crypto.Hash) ([]map[uint16]*crypto.Signature,
 						msg = other
 					}
 					s := b.privs[sp.Signer].Sign(msg)
+					if sp.DR != "" {
+						s = shiftR(s, b.privs[sp.Signer], msg, sp.DR)
+					}
+					if sp.DS != "" {
+						copy(s[32:], bigLE32(addModL(leBig(s[32:]), dec(sp.DS))))
+					}
 					if sp.Tamper > 0 {
 						s[(sp.Tamper-1)%64] ^= byte(sp.Xor | 1)
 					}
@@ -502,7 +516,7 @@ func runInputs(c *vh.Ctx, cs Case) {
 				// what the scenario says about this signature
 				sp := findSpec(cs.Inputs[i].Sigs, e.idx)
 				if sp != nil && sp.Raw == "" && sp.CopyOf == 0 {
-					honest := !sp.Other && sp.Tamper == 0 && b.privs[sp.Signer].Public() == k
+					honest := !sp.Other && sp.Tamper == 0 && sp.DS == "" && sp.DR == "" && b.privs[sp.Signer].Public() == k
 					if honest != ok {
 						c.Fail("verify-vs-scenario", fmt.Sprintf("Key.Verify=%v for a signature the scenario made honest=%v (input %d index %d)", ok, honest, i, e.idx), cs)
 					}
@@ -758,6 +772,52 @@ func runScript(c *vh.Ctx, cs Case) {
 
 // ---- Verify / BatchVerify with known discrete logs ----------------------------------------
 
+func dec(s string) *big.Int {
+	v, ok := new(big.Int).SetString(s, 10)
+	if !ok {
+		panic("bad decimal " + s)
+	}
+	return v.Mod(v, ordL)
+}
+
+func addModL(a, b *big.Int) *big.Int {
+	v := new(big.Int).Add(a, b)
+	return v.Mod(v, ordL)
+}
+
+func scalarOfBig(v *big.Int) *edwards25519.Scalar {
+	s, err := edwards25519.NewScalar().SetCanonicalBytes(bigLE32(new(big.Int).Mod(v, ordL)))
+	if err != nil {
+		panic(err)
+	}
+	return s
+}
+
+// shiftR turns the valid signature (R, s) of priv over msg into (R + d*B, s + (k' - k)*a):
+// the response of the ORIGINAL nonce under the challenge of the new transcript, so the
+// verification equation is off by exactly d*B.
+func shiftR(sg crypto.Signature, priv crypto.Key, msg crypto.Hash, d string) crypto.Signature {
+	pub := priv.Public()
+	Rp, err := new(edwards25519.Point).SetBytes(sg[:32])
+	if err != nil {
+		panic(err)
+	}
+	D := new(edwards25519.Point).ScalarBaseMult(scalarOfBig(dec(d)))
+	R2 := new(edwards25519.Point).Add(Rp, D).Bytes()
+	k := challenge(sg[:32], pub[:], msg)
+	k2 := challenge(R2, pub[:], msg)
+	diff := edwards25519.NewScalar().Subtract(k2, k)
+	sOld, err := edwards25519.NewScalar().SetCanonicalBytes(sg[32:])
+	if err != nil {
+		panic(err)
+	}
+	sNew := edwards25519.NewScalar().MultiplyAdd(diff, scalarOf(priv), sOld)
+	var out crypto.Signature
+	copy(out[:32], R2)
+	copy(out[32:], sNew.Bytes())
+	return out
+}
+
 func scalarOf(k crypto.Key) *edwards25519.Scalar {
 	s, err := edwards25519.NewScalar().SetCanonicalBytes(k[:])
 	if err != nil {
@@ -817,11 +877,22 @@ func buildEntry(e SchEntry, m crypto.Hash) schOut {
 		}
 		return o
 	}
+	if e.DR != "" {
+		// R' = (r + d)*B while the response below is made with the nonce r
+		o.r = addModL(o.r, dec(e.DR))
+		var nk crypto.Key
+		copy(nk[:], bigLE32(o.r))
+		R = nk.Public()
+	}
 	k := challenge(R[:], o.pub[:], signMsg)
 	s := edwards25519.NewScalar().MultiplyAdd(k, scalarOf(priv), scalarOf(nonce))
 	copy(o.sig[:32], R[:])
 	copy(o.sig[32:], s.Bytes())
 	o.s = leBig(s.Bytes())
+	if e.DS != "" {
+		o.s = addModL(o.s, dec(e.DS))
+		copy(o.sig[32:], bigLE32(o.s))
+	}
 	switch e.Mode {
 	case "s+1":
 		o.s = new(big.Int).Add(o.s, big.NewInt(1))
@@ -947,7 +1018,7 @@ func runVerify(c *vh.Ctx, cs Case) {
 		if ref != got && !laxMode(cs.Entries[0].Mode) { // the reference decoder is lax on purpose
 			c.Fail("verify-vs-reference", fmt.Sprintf("Key.Verify=%v, Ed25519 reference=%v", got, ref), cs)
 		}
-		want := cs.Entries[0].Mode == "honest" || cs.Entries[0].Mode == "repo"
+		want := (cs.Entries[0].Mode == "honest" || cs.Entries[0].Mode == "repo") && cs.Entries[0].DS == "" && cs.Entries[0].DR == ""
 		if got != want {
 			c.Fail("verify-vs-scenario", fmt.Sprintf("Key.Verify=%v on a %s signature", got, cs.Entries[0].Mode), cs)
 		}
@@ -974,8 +1045,19 @@ func runVerify(c *vh.Ctx, cs Case) {
 	coq := ""
 	if modelled && !pan {
 		coq = vh.App("CBatch", vh.List(terms, "(Z * Z * Z * Z)"), vh.Bool(got))
+		if len(cs.Zs) > 0 {
+			var zs []string
+			for _, z := range cs.Zs {
+				zs = append(zs, vh.Z(dec(z)))
+			}
+			coq = vh.App("CCancel", vh.List(terms, "(Z * Z * Z * Z)"), vh.List(zs, "Z"), vh.Bool(got))
+		}
 	}
-	c.Case(fmt.Sprintf("batch-%d", len(cs.Entries)), string(js), got, cs, coq)
+	kind := fmt.Sprintf("batch-%d", len(cs.Entries))
+	if len(cs.Zs) > 0 {
+		kind = cs.Kind
+	}
+	c.Case(kind, string(js), got || len(cs.Zs) > 0, cs, coq)
 	if pan {
 		c.Fail("batch-panic", "crypto.BatchVerify panicked", cs)
 		return
